@@ -88,6 +88,9 @@ func c14Body(p c14Params) func() explore.SchedOutcome {
 	if p.Harness == "D" {
 		return func() explore.SchedOutcome { return c14D(p) }
 	}
+	if p.Harness == "E" {
+		return func() explore.SchedOutcome { return c14E(p) }
+	}
 	return func() explore.SchedOutcome { return c14B(p) }
 }
 
@@ -449,6 +452,52 @@ func c14C(p c14Params) (out explore.SchedOutcome) {
 	return out
 }
 
+// Harness E (request about a user who leaves): alice invites carol to a new chat (or asks for her info, or sends her a
+// message) while carol's connection ends.  Alone, before or after carol has gone, each request is answered; it must be
+// answered, once, under every schedule, and alice stays connected.
+func c14E(p c14Params) (out explore.SchedOutcome) {
+	vrt.BeginSetup()
+	w := world.New(world.Cfg{Accounts: []world.Acct{{Login: "guest", Name: "Guest", Access: world.AllAccess}}})
+	defer w.Close()
+	a, ra := w.Connect("10.0.0.1:1001", "guest", "", "alice")
+	c, rc := w.Connect("10.0.0.3:1003", "guest", "", "carol")
+	if ra == nil || rc == nil {
+		out.Violations = append(out.Violations, explore.SchedV{Signature: "C14/E/setup-login-failed", Detail: "login got no reply"})
+		return out
+	}
+	a.New()
+	kinds := []uint16{ref.TInviteNewChat, ref.TGetClientInfoText, ref.TSendInstantMsg}
+	var ids []uint32
+	for _, k := range kinds {
+		ids = append(ids, a.Send(ref.Tx{Type: k, Fields: []ref.Fld{ref.F16(ref.FUserID, 2), ref.FS(ref.FData, "hi"), ref.F16(ref.FOptions, 1)}}))
+	}
+	c.Conn.Reset()
+	vrt.EndSetup()
+	vrt.Settle(10 * time.Second)
+	a.Poll()
+	var obs []string
+	for i, id := range ids {
+		n := 0
+		for _, t := range a.Inbox {
+			if t.IsReply == 1 && t.ID == id {
+				n++
+			}
+		}
+		if n != 1 && kinds[i] != ref.TSendInstantMsg || n > 1 {
+			out.Violations = append(out.Violations, explore.SchedV{Signature: fmt.Sprintf("C14/E/correlation/%d-replies/type-%d", n, kinds[i]), Detail: fmt.Sprintf("alice's request %d about user 2, who disconnects at the same moment, got %d replies (alice's connection closed: %v)", kinds[i], n, a.Conn.Closed)})
+		}
+		obs = append(obs, fmt.Sprint(n))
+	}
+	if a.Conn.Closed {
+		out.Violations = append(out.Violations, explore.SchedV{Signature: "C14/E/requester-disconnected", Detail: "alice's connection was closed"})
+	}
+	for _, pn := range vrt.S.Panics() {
+		out.Violations = append(out.Violations, explore.SchedV{Signature: "C14/E/panic/" + vrt.PanicSite(pn), Detail: pn})
+	}
+	out.Canon = strings.Join(obs, ",")
+	return out
+}
+
 func runC14(w *explore.Worker) {
 	type job struct {
 		p     c14Params
@@ -506,6 +555,8 @@ func runC14(w *explore.Worker) {
 	}
 	// harness D: login while the account is deleted
 	jobs = append(jobs, job{c14Params{Harness: "D"}, boundB})
+	// harness E: requests about a user who leaves at the same moment
+	jobs = append(jobs, job{c14Params{Harness: "E"}, boundB})
 	maxBound := 0
 	c14Baseline(w)
 	for _, j := range jobs {
